@@ -7,7 +7,7 @@ LEVEL = "model_checking"
 
 IO_INV = "RoundTrip LayoutOK Emit"
 CK_INV = "RestoredRight FileOrdered FileComplete FileLayout Emit"
-ST_INV = "ReadRight LoadRight SizeIsSum ClearedIsNew WriteAfterClear Emit"
+ST_INV = "ReadRight LoadRight SizeOK NoOverlap ClearedIsNew WriteAfterClear Emit"
 
 
 def io_cfg(kind, maxm, maxn, bh, bw, pal):
@@ -119,7 +119,9 @@ def key(c):
 def nontrivial(c):
     if c["part"] == "stream":
         ops = [o["op"] for o in c["ops"]]
-        return "clear" in ops and ops.index("clear") < len(ops) - 1      # the stream is reused after a clear
+        # the stream is reused after a clear, or a container / checkpoint is written over existing bytes after a seek
+        over = any(o["op"] in ("write", "save") and k > 0 and o["off"] < c["ops"][k - 1]["size"] for k, o in enumerate(c["ops"]))
+        return over or ("clear" in ops and ops.index("clear") < len(ops) - 1)
     if c["part"] == "ckpt":
         return len(c["objs"]) >= 2
     return len(c["arrays"]["el"]) > 0
